@@ -291,7 +291,10 @@ where
                 }
             }
             JSXElementName::JSXMemberExpr(expr) => Expr::JSXMember(expr.clone()),
-            JSXElementName::JSXNamespacedName(name) => Expr::JSXNamespacedName(name.clone()),
+            JSXElementName::JSXNamespacedName(name) => Expr::Lit(Lit::Str(quote_str!(format!(
+                "{}:{}",
+                name.ns.sym, name.name.sym
+            )))),
         }
     }
 
@@ -1012,6 +1015,9 @@ where
 
         if matches!(element_name, JSXElementName::JSXMemberExpr(..)) {
             should_transformed_to_slots
+        } else if matches!(element_name, JSXElementName::JSXNamespacedName(..)) {
+            // `<ns:name>` is a string tag
+            false
         } else {
             self.options
                 .custom_element_patterns
